@@ -16,6 +16,7 @@ func init() {
 		&Rule{ID: "EX-ARITH", Doc: "integer + - * go through math/big with an IsInt64 guard; / is guarded against zero and MinInt64/-1; no native wrapping arithmetic on datalog.Integer", Run: ruleEXArith, Min: 4},
 		&Rule{ID: "EX-ORDER", Doc: "comparison and boolean operators return the specified truth table over all orderings / truth assignments", Run: ruleEXOrder, Min: 11},
 		&Rule{ID: "EX-DISPATCH", Doc: "operator and term-kind registries (datalog, biscuit, printer) are total, injective and name-consistent over the frozen operator list", Run: ruleEXDispatch, Min: 60},
+		&Rule{ID: "EX-STRINGS", Doc: "string, regex, length and set operators call the library function of their own meaning with (left, right) in the specified order", Run: ruleEXStrings, Min: 12},
 		&Rule{ID: "EX-STACK", Doc: "Evaluate tests every Push/Pop error and succeeds only with exactly one value left", Run: ruleEXStack, Min: 8},
 		&Rule{ID: "FX-EQUAL", Doc: "every Term.Equal is type-strict: the comma-ok of the assertion to the receiver's own type gates any true result", Run: ruleFXEqual, Min: 7},
 		&Rule{ID: "FX-UNIFY", Doc: "the bool result of every MatchedVariables.Insert controls a branch", Run: ruleFXUnify, Min: 1},
@@ -883,5 +884,225 @@ func ruleFXUnify(p *Prog, r *Reporter) {
 			}
 		}
 		r.Check(used, p.instrPos(cv), name, "MatchedVariables.Insert", "the consistency verdict of a repeated variable controls a branch", "the bool result of Insert is ignored: a variable bound to two different values is accepted")
+	}
+}
+
+// ---- EX-STRINGS: operator <-> library function agreement (sibling consistency, operand order)
+
+func successValues(p *Prog, fn *ssa.Function) []string {
+	var out []string
+	ei := errorResultIndex(fn)
+	seen := map[string]bool{}
+	var add func(v ssa.Value)
+	add = func(v ssa.Value) {
+		if ph, ok := v.(*ssa.Phi); ok {
+			for _, e := range ph.Edges {
+				add(e)
+			}
+			return
+		}
+		// strip boxing and the conversion to the result term type
+		for {
+			switch x := v.(type) {
+			case *ssa.MakeInterface:
+				v = x.X
+				continue
+			case *ssa.ChangeType:
+				v = x.X
+				continue
+			case *ssa.Convert:
+				if isRepoNamed(x.Type(), "datalog", "Bool") || isRepoNamed(x.Type(), "datalog", "Integer") {
+					v = x.X
+					continue
+				}
+			}
+			break
+		}
+		d := p.D(v)
+		d = strings.ReplaceAll(d, "?#0", "")
+		if !seen[d] {
+			seen[d] = true
+			out = append(out, d)
+		}
+	}
+	for _, ret := range returnsOf(fn) {
+		if ei >= 0 && !isNilConst(retVal(ret, ei)) {
+			continue
+		}
+		add(retVal(ret, 0))
+	}
+	sort.Strings(out)
+	return out
+}
+
+func ruleEXStrings(p *Prog, r *Reporter) {
+	globalP = p
+	type spec struct {
+		op   string
+		want func(l, rt, sy string) []string // accepted success values (any order); constants true/false are ignored
+	}
+	str := func(sy, v string) string { return "datalog.SymbolTable.Str(" + sy + ", " + v + ".(datalog.String))" }
+	specs := []spec{
+		{"Prefix", func(l, rt, sy string) []string { return []string{"strings.HasPrefix(" + str(sy, l) + ", " + str(sy, rt) + ")"} }},
+		{"Suffix", func(l, rt, sy string) []string { return []string{"strings.HasSuffix(" + str(sy, l) + ", " + str(sy, rt) + ")"} }},
+		{"Regex", func(l, rt, sy string) []string {
+			return []string{"regexp.Regexp.Match(regexp.Compile(" + str(sy, rt) + ")#0, []byte(" + str(sy, l) + "))"}
+		}},
+		{"Contains", func(l, rt, sy string) []string { return []string{"strings.Contains(" + str(sy, l) + ", " + str(sy, rt) + ")"} }},
+		{"Add", func(l, rt, sy string) []string {
+			return []string{"datalog.SymbolTable.Insert(" + sy + ", (" + str(sy, l) + "+" + str(sy, rt) + "))"}
+		}},
+		{"Intersection", func(l, rt, sy string) []string { return []string{"datalog.Set.Intersect(" + l + ".(datalog.Set), " + rt + ".(datalog.Set))"} }},
+		{"Union", func(l, rt, sy string) []string { return []string{"datalog.Set.Union(" + l + ".(datalog.Set), " + rt + ".(datalog.Set))"} }},
+		{"Equal", func(l, rt, sy string) []string { return []string{l + ".Equal(" + rt + ")"} }},
+	}
+	for _, sp := range specs {
+		t := p.NamedType("datalog", sp.op)
+		var ev *ssa.Function
+		if t != nil {
+			ev = p.method(t, "Eval")
+		}
+		if ev == nil || len(ev.Params) < 4 {
+			r.Dunno("?", "datalog."+sp.op, "Eval", "operator or its Eval(left, right, symbols) not found")
+			continue
+		}
+		l, rt, sy := ev.Params[1].Name(), ev.Params[2].Name(), ev.Params[3].Name()
+		got := successValues(p, ev)
+		for _, w := range sp.want(l, rt, sy) {
+			found := false
+			for _, g := range got {
+				if g == w {
+					found = true
+				}
+			}
+			r.Check(found, p.Pos(ev.Pos()), p.FuncName(ev), "result "+strings.ReplaceAll(strings.ReplaceAll(w, l, "L"), rt, "R"), "the operator returns the library function of its own meaning applied to (left, right)",
+				fmt.Sprintf("operator %s does not return %s; its success values are %v (wrong library function or swapped operands)", sp.op, w, got))
+		}
+		// nothing else except boolean constants / the integer big-int path / set membership results
+		for _, g := range got {
+			okExtra := false
+			for _, w := range sp.want(l, rt, sy) {
+				if g == w {
+					okExtra = true
+				}
+			}
+			if g == "true:bool" || g == "false:bool" || g == "true:datalog.Bool" || g == "false:datalog.Bool" {
+				okExtra = sp.op == "Contains"
+			}
+			if sp.op == "Add" && strings.HasPrefix(g, "math/big.Int.Int64(") {
+				okExtra = true
+			}
+			if !okExtra {
+				r.Bad(p.Pos(ev.Pos()), p.FuncName(ev), "extra result "+g, "operator "+sp.op+" can also return "+g+", which is not part of its specification")
+			}
+		}
+	}
+	// Length: one clause per measurable kind
+	if t := p.NamedType("datalog", "Length"); t != nil && p.method(t, "Eval") != nil {
+		ev := p.method(t, "Eval")
+		v, sy := ev.Params[1].Name(), ev.Params[2].Name()
+		want := []string{"len(datalog.SymbolTable.Str(" + sy + ", " + v + ".(datalog.String)))", "len(" + v + ".(datalog.Bytes))", "len(" + v + ".(datalog.Set))"}
+		got := successValues(p, ev)
+		sort.Strings(want)
+		r.Check(strings.Join(got, "|") == strings.Join(want, "|"), p.Pos(ev.Pos()), p.FuncName(ev), "length clauses", "length of the string / byte array / set itself", fmt.Sprintf("Length returns %v, expected %v", got, want))
+	} else {
+		r.Dunno("?", "datalog.Length", "Eval", "not found")
+	}
+	// set algebra helpers
+	if st := p.NamedType("datalog", "Set"); st != nil {
+		p.checkSetAlgebra(r, st)
+	}
+}
+
+// checkSetAlgebra: has = exists Equal over the full range; Intersect keeps the elements of s that t has;
+// Union keeps all of s and the elements of t that s does not have.
+func (p *Prog) checkSetAlgebra(r *Reporter, st *types.Named) {
+	has := p.method(st, "has")
+	hasName := "has"
+	if has == nil {
+		r.Dunno("?", "datalog.Set", "membership helper", "Set.has not found")
+		return
+	}
+	// has: returns true only under Equal(...) true inside a full-range loop over the receiver; false after exhaustion
+	okHas := false
+	for _, rl := range rangeLoops(has) {
+		if rl.seq != ssa.Value(has.Params[0]) {
+			continue
+		}
+		t, f := false, false
+		for _, ret := range returnsOf(has) {
+			k, isC := retVal(ret, 0).(*ssa.Const)
+			if !isC || k.Value == nil {
+				continue
+			}
+			if k.Value.String() == "true" {
+				for _, g := range guardsOf(ret.Block()) {
+					if c, ok := g.cond.(*ssa.Call); ok && g.val && c.Call.IsInvoke() && c.Call.Method.Name() == "Equal" && rl.inside(ret.Block()) {
+						t = true
+					}
+				}
+			} else if rl.doneBB == ret.Block() || rl.doneBB.Dominates(ret.Block()) {
+				f = true
+			}
+		}
+		okHas = t && f && len(returnsOf(has)) == 2
+	}
+	r.Check(okHas, p.Pos(has.Pos()), p.FuncName(has), "membership", "true iff some element (full range) is Equal to the argument", "Set."+hasName+" is not 'exists an element Equal to the argument over the full range'")
+	for _, m := range []struct {
+		name      string
+		over      int // which parameter is ranged over
+		testOn    int // receiver of has()
+		keepIfHas bool
+		seedAll   bool // result starts with all of s
+	}{{"Intersect", 0, 1, true, false}, {"Union", 1, 0, false, true}} {
+		fn := p.method(st, m.name)
+		if fn == nil {
+			r.Dunno("?", "datalog.Set."+m.name, "method", "not found")
+			continue
+		}
+		ok := false
+		why := "no full-range loop over the expected operand"
+		for _, rl := range rangeLoops(fn) {
+			if rl.seq != ssa.Value(fn.Params[m.over]) {
+				continue
+			}
+			for b := range rl.body {
+				for _, in := range b.Instrs {
+					call, isC := in.(*ssa.Call)
+					if !isC {
+						continue
+					}
+					_, elem, one := singleAppend(call)
+					if !one || !rl.isElem(elem) {
+						continue
+					}
+					for _, g := range guardsOf(b) {
+						c, isCall := g.cond.(*ssa.Call)
+						if !isCall || !isCallTo(&c.Call, "datalog.Set.has") {
+							continue
+						}
+						if c.Call.Args[0] == ssa.Value(fn.Params[m.testOn]) && rl.isElem(c.Call.Args[1]) && g.val == m.keepIfHas {
+							ok = true
+						} else {
+							why = "elements are kept under the wrong membership test"
+						}
+					}
+				}
+			}
+		}
+		if ok && m.seedAll {
+			seeded := false
+			for _, c := range callsIn(fn) {
+				if cv, isC := c.(*ssa.Call); isC {
+					if bi, isB := cv.Call.Value.(*ssa.Builtin); isB && bi.Name() == "append" && len(cv.Call.Args) == 2 && unwrap(cv.Call.Args[1]) == ssa.Value(fn.Params[0]) {
+						seeded = true
+					}
+				}
+			}
+			if !seeded {
+				ok, why = false, "the union does not start with all elements of the receiver"
+			}
+		}
+		r.Check(ok, p.Pos(fn.Pos()), p.FuncName(fn), "set "+strings.ToLower(m.name), "elements selected by the specified membership test over the full range", "Set."+m.name+": "+why)
 	}
 }
